@@ -18,6 +18,7 @@
 package types
 
 import (
+	"bytes"
 	"encoding/base64"
 	"encoding/json"
 	"fmt"
@@ -217,7 +218,11 @@ func (c *ColumnImage) MarshalJSON() ([]byte, error) {
 func (c *ColumnImage) UnmarshalJSON(data []byte) error {
 	var err error
 	tmpImage := make(map[string]interface{})
-	if err := json.Unmarshal(data, &tmpImage); err != nil {
+	// numbers are kept as they were written (json.Number): decoded into float64, an integer beyond
+	// 2^53 - a BIGINT key - comes back as another number, and rollback addresses another row
+	decoder := json.NewDecoder(bytes.NewReader(data))
+	decoder.UseNumber()
+	if err := decoder.Decode(&tmpImage); err != nil {
 		return err
 	}
 	var (
@@ -228,41 +233,57 @@ func (c *ColumnImage) UnmarshalJSON(data []byte) error {
 		actualValue interface{}
 	)
 	var okKey, okType, okName bool
-	var typeNumber float64
+	var typeNumber json.Number
 	keyType, okKey = tmpImage["keyType"].(string)
-	typeNumber, okType = tmpImage["type"].(float64)
+	typeNumber, okType = tmpImage["type"].(json.Number)
 	columnName, okName = tmpImage["name"].(string)
 	if !okKey || !okType || !okName {
 		return fmt.Errorf("malformed column image %s", string(data))
 	}
-	columnType = int16(int64(typeNumber))
+	typeCode, err := jsonInteger(typeNumber)
+	if err != nil {
+		return fmt.Errorf("malformed column image %s", string(data))
+	}
+	columnType = int16(typeCode)
 	value = tmpImage["value"]
 
 	if value != nil {
 		switch JDBCType(columnType) {
 		case JDBCTypeReal: // 4 Bytes
-			// encoding/json decodes every number into float64
-			f, ok := value.(float64)
+			n, ok := value.(json.Number)
 			if !ok {
 				return fmt.Errorf("column %s: a number is expected for type %d, got %T", columnName, columnType, value)
+			}
+			f, err := n.Float64()
+			if err != nil {
+				return fmt.Errorf("column %s: %w", columnName, err)
 			}
 			actualValue = float32(f)
 		case JDBCTypeDecimal, JDBCTypeDouble: // 8 Bytes
 			// DECIMAL values are handed over by the driver as text and are stored as a JSON string
 			switch v := value.(type) {
-			case float64, string:
+			case json.Number:
+				f, err := v.Float64()
+				if err != nil {
+					return fmt.Errorf("column %s: %w", columnName, err)
+				}
+				actualValue = f
+			case string:
 				actualValue = v
 			default:
 				return fmt.Errorf("column %s: a number or its text is expected for type %d, got %T", columnName, columnType, value)
 			}
 		case JDBCTypeTinyInt, JDBCTypeSmallInt, JDBCTypeInteger, JDBCTypeBigInt:
-			f, ok := value.(float64)
+			number, ok := value.(json.Number)
 			if !ok {
 				return fmt.Errorf("column %s: a number is expected for type %d, got %T", columnName, columnType, value)
 			}
+			n, err := jsonInteger(number)
+			if err != nil {
+				return fmt.Errorf("column %s: %w", columnName, err)
+			}
 			// the width of the column type - unless the value does not fit it (the type code does
 			// not tell UNSIGNED columns apart): then all 64 bits, as the row scanner delivered it
-			n := int64(f)
 			switch {
 			case JDBCType(columnType) == JDBCTypeTinyInt && n >= math.MinInt8 && n <= math.MaxInt8: // 1 Bytes
 				actualValue = int8(n)
@@ -300,11 +321,11 @@ func (c *ColumnImage) UnmarshalJSON(data []byte) error {
 				}
 				actualValue = raw
 			} else {
-				actualValue = value
+				actualValue = plainJSONValue(value)
 			}
 		default:
 			// a type code without a rule of its own: keep what was stored rather than dropping it
-			actualValue = value
+			actualValue = plainJSONValue(value)
 		}
 	}
 	*c = ColumnImage{
@@ -314,6 +335,28 @@ func (c *ColumnImage) UnmarshalJSON(data []byte) error {
 		Value:      actualValue,
 	}
 	return nil
+}
+
+// jsonInteger the integer a JSON number stands for: exactly, when it is written as an integer
+func jsonInteger(n json.Number) (int64, error) {
+	if i, err := n.Int64(); err == nil {
+		return i, nil
+	}
+	f, err := n.Float64()
+	if err != nil {
+		return 0, err
+	}
+	return int64(f), nil
+}
+
+// plainJSONValue a number without a rule of its own is handed on as encoding/json does by default
+func plainJSONValue(value interface{}) interface{} {
+	if n, ok := value.(json.Number); ok {
+		if f, err := n.Float64(); err == nil {
+			return f
+		}
+	}
+	return value
 }
 
 func (c *ColumnImage) GetActualValue() interface{} {
